@@ -135,6 +135,13 @@ def run_case(desc, ctx):
             real2, sim2, _ = G.gen_data(rng, N, D, E, d["filters"], shapes)
             for _k in range(int(rng.integers(1, 4))):
                 ev(loss, sim2, real2)
+            # ... and on data of another length / ensemble size (shape-dependent state must not stick to the object)
+            N3, E3 = N + int(rng.integers(3, 20)), int(rng.integers(1, 5))
+            real3, sim3, _ = G.gen_data(rng, N3, D, E3, d["filters"], shapes)
+            try:
+                ev(loss, sim3, real3)
+            except Exception:  # noqa: BLE001  (e.g. a user matrix sized for other moments) - not this clause's subject
+                pass
             v1b = ev(loss, sim, real)
             cnt("purity")
             same = v1b == v1 or (v1 != v1 and v1b != v1b) or (math.isfinite(v1) and abs(v1b - v1) <= 1e-12 * max(1.0, abs(v1)))
